@@ -23,7 +23,7 @@ type vpC09Result struct {
 func vpC09Ops(tree Expression, other []byte) vpC09Result {
 	var res vpC09Result
 	r := NewRunner()
-	r.SetThis(map[string]interface{}{"x": 2, "y": nil, "f": func(a, b interface{}) (int, error) { return 5, nil }})
+	r.SetThis(map[string]interface{}{"x": 2, "y": nil, "f": func(a, b interface{}) (int, error) { return 5, nil }, "st": vpPerson{Name: "n", Age: 3}, "tg": vpTagged{ID: 4}})
 	v, err := r.Resolve(context.Background(), tree)
 	res.val, res.err = v, vpErrText2(err)
 	fs, ferr := ResolveReferenceFields(&SourceCode{Expression: tree})
@@ -53,7 +53,7 @@ func VP_C09_shared() {
 	var tree Expression
 	if N == 0 {
 		// pool of shared formulas whose builtins touch library state (patterns, rounding)
-		text := []string{"[regexp('a', 'a'), regexp('b', 'b+'), regexp('ab', 'c')]", "[round(2.5), 7 / 2, toString(1.50)]", "x > 1 ? lpad('a', '0', 3) : regexp('(', '(')"}[vpChoice("pool", 3)]
+		text := []string{"[regexp('a', 'a'), regexp('b', 'b+'), regexp('ab', 'c')]", "[round(2.5), 7 / 2, toString(1.50)]", "x > 1 ? lpad('a', '0', 3) : regexp('(', '(')", "[st.Name, st.Age, tg.ID, st.Name]"}[vpChoice("pool", 4)]
 		code, err := ParseSourceCode([]byte(text))
 		if err != nil {
 			vpAssert("C09/shared/pool-parses", false)
